@@ -121,6 +121,48 @@ def bitflip(case, ctx):
              "bitflip/%s/%s#%d" % (proto, d, idx), stalled)
 
 
+# The protected handshake records (the Finished messages of TLCP / TLS 1.2 right after ChangeCipherSpec; everything after ServerHello in
+# TLS 1.3) byte by byte: a case takes every payload offset of one stripe (offset mod 8) of one such record and flips one bit there, so the
+# quick tier walks every byte of these short records instead of sampling them.
+stripe_case = st.fixed_dictionaries(dict(cfg, prot=st.integers(0, 15), stripe=st.integers(0, 7), bits=st.integers(0, (1 << 48) - 1)))
+
+
+@P.sub("finflip", stripe_case, quick=200, thorough=8000, chunk=10)
+def finflip(case, ctx):
+    """every byte of one stripe of a protected handshake record (Finished), one flipped bit per byte"""
+    proto, mutual, seed = case["proto"], case["mutual"], case["seed"]
+    base = _baseline(ctx, proto, mutual, seed)
+    prot = []
+    seen_ccs = {"c2s": False, "s2c": False}
+    for d, idx, raw in base:
+        if raw[0] == 20:
+            seen_ccs[d] = True
+        elif (proto == "tls13" and raw[0] == 23) or (proto != "tls13" and raw[0] == 22 and seen_ccs[d]):
+            prot.append((d, idx, raw))
+    if not prot:
+        return
+    d, idx, raw = prot[case["prot"] % len(prot)]
+    n = len(raw) - 5
+    offs = [o for o in range(n) if o % 8 == case["stripe"]][:64]
+    for j, o in enumerate(offs):
+        bit = (case["bits"] >> (3 * (j % 16))) & 7
+        hit = []
+
+        def hook(rec, o=o, bit=bit):
+            if rec.dir == d and rec.idx == idx:
+                b = bytearray(rec.raw)
+                if 5 + o < len(b):
+                    b[5 + o] ^= 1 << bit
+                    hit.append(1)
+                return [bytes(b)]
+            return [rec.raw]
+        hc, hs, log, stalled, _ = _run(ctx, proto, mutual, seed, hook)
+        ctx.case(nontrivial=bool(hit), classes=[proto, "mutual" if mutual else "server-auth", "protected:%s#%d" % (d, idx), "len=%d" % n],
+                 ident=[proto, mutual, seed, d, idx, o, bit])
+        _verdict(ctx, hc, hs, "bit %d of byte %d of the protected %s record #%d (type %d, %d bytes) was flipped in flight (%s, %s)" %
+                 (bit, o, d, idx, raw[0], n, proto, "mutual auth" if mutual else "server auth"), "finflip/%s/%s" % (proto, d), stalled)
+
+
 FAULTS = ["drop", "dup", "swap", "trunc-adjust", "trunc-raw", "inject-earlier", "reflect", "extend", "inject-crafted", "inject-crafted"]
 # crafted records put in front of a handshake record: content types handshake / application_data / heartbeat / unknown / change_cipher_spec.
 # The property leaves no room for RFC 8446's middlebox-compatibility rule (a TLS 1.3 receiver may drop a stray CCS record 01): this library
